@@ -85,6 +85,8 @@ def main_for(scn, prop, argv):
             rp = json.load(f)
         res = scn.execute(rp["plan"])
         vs = [v for v in res["violations"] if v["property"] == prop]
+        want = json.dumps(rp.get("class"), sort_keys=True)
+        vs = [v for v in vs if viol_key(v) == want] or vs
         if vs:
             v = vs[0]
             print("REPLAY class=%s hash=%s" % (viol_key(v), res["hash"]))
